@@ -129,7 +129,7 @@ func init() {
 			"Non-trivial: the text has at least 2 blocks and some worker count yields a batch with a complete middle block; distinct = distinct texts",
 		Count: func(tier string) int {
 			if tier == "thorough" {
-				return 40000
+				return 5000
 			}
 			return 1500
 		},
